@@ -56,13 +56,15 @@ let handle (toks: string list) : string =
                   ^ String.concat "," (List.map (fun ptr -> let v = int_of_n ptr in if v = 0 then "-" else string_of_int (v - 1)) e.e_ptrs) in
       let pairs = (match cpm_read p es with Some l -> String.concat "," (List.map (fun (c, _) -> string_of_int (int_of_n c)) l) | None -> "unreadable") in
       id ^ " " ^ String.concat ";" (List.map ent es) ^ " | " ^ pairs ^ " | " ^ string_of_int (int_of_n (cpm_eof es))
-  | "pdtree" :: id :: _label :: spec :: [] ->
-      (* the same chunk set on a fresh volume: free blocks are 7, 8, 9, ... *)
+  | "pdtree" :: id :: _label :: spec0 :: [] ->
+      (* the same chunk set on a fresh volume: free blocks are 7, 8, 9, ...; a trailing F = last block used to its last byte *)
+      let full = String.length spec0 > 0 && spec0.[String.length spec0 - 1] = 'F' in
+      let spec = if full then String.sub spec0 0 (String.length spec0 - 1) else spec0 in
       let idx = List.concat_map (fun p -> match String.split_on_char '-' p with
         | [a; b] -> List.init (int_of_string b - int_of_string a + 1) (fun k -> int_of_string a + k)
         | _ -> [int_of_string p]) (String.split_on_char ',' spec) in
       let cs = List.map n_of_int idx in
-      if int_of_n (cs_end cs) > 32768 then id ^ " refused" else
+      if int_of_n (cs_end cs) > 32768 || (full && int_of_n (cs_end cs) * 512 > 0xffffff) then id ^ " refused" else
       let free = List.init 4000 (fun k -> n_of_int (7 + k)) in
       let l = pd_layout cs free in
       let master = List.concat (List.mapi (fun g p -> if int_of_n p > 0 then [string_of_int g ^ ":" ^ string_of_int (int_of_n p)] else []) l.l_master) in
